@@ -64,14 +64,27 @@ def to_point(sig, connected):
     return None
 
 
-def explore(inject_at=None, kind="reset", horizon=25.0, cycles=0):
+def explore(inject_at=None, kind="reset", horizon=25.0, cycles=0, slow=False):
+    """slow = the client's event handler really suspends: 0.3 s on every *_FINISHED / teardown / disconnected event, one loop
+    turn on every other event (only with kind='exit': the reset of this rig is run synchronously)"""
     from geckolib import GeckoAsyncSpaMan
     res = {"points": []}
 
     async def body(loop):
+        active = {"n": 0, "log": []}
+
         class Man(GeckoAsyncSpaMan):
             async def handle_event(self, event, **kw):
-                pass
+                if not slow:
+                    return
+                name = str(event).split(".")[-1]
+                active["n"] += 1
+                active["log"].append((loop.time(), "enter", name))
+                try:
+                    await asyncio.sleep(0.3 if (name.endswith("FINISHED") or "TEARDOWN" in name or "DISCONNECTED" in name) else 0)
+                finally:
+                    active["n"] -= 1
+                    active["log"].append((loop.time(), "leave", name))
         sim = fakenet.make_sim(SNAP)
         net = fakenet.Network(loop, sim)
         loop.network = net
@@ -118,6 +131,14 @@ def explore(inject_at=None, kind="reset", horizon=25.0, cycles=0):
                     st["task"] = fut
                 else:
                     st["task"] = loop.create_task(m.__aexit__(None, None, None))
+
+                    def at_return(_t):
+                        # the instant __aexit__ returns: nothing of the library may still be running
+                        res["t_exit_return"] = loop.time()
+                        res["tasks_at_exit_return"] = sorted(t.get_name() for t in asyncio.all_tasks()
+                                                             if not t.done() and ":" in t.get_name() and t is not st["task"])
+                        res["handlers_running_at_exit_return"] = [n for (_, what, n) in active["log"] if what == "enter"][-active["n"]:] if active["n"] else []
+                    st["task"].add_done_callback(at_return)
         loop.on_iter = hook
         while loop.time() < horizon:
             await asyncio.sleep(0.05)
@@ -173,6 +194,8 @@ def explore(inject_at=None, kind="reset", horizon=25.0, cycles=0):
             except BaseException as e:  # noqa
                 res["exit_exc"] = repr(e)
         await asyncio.sleep(0.5)
+        if res.get("t_exit_return") is not None:
+            res["handler_activity_after_exit"] = [(round(t - res["t_exit_return"], 3), what, n) for (t, what, n) in active["log"] if t > res["t_exit_return"]]
         res["open_at_end"] = [t.id for t in loop.transports if not t.closed]
         res["tasks_at_end"] = [t.get_name() for t in asyncio.all_tasks() if t is not asyncio.current_task() and not t.done()]
         res["pump_done_at_end"] = pump.done()
@@ -324,6 +347,21 @@ def run(ctx):
             ctx.violation(f"endpoint-open:exit:{proc}", dict(inp, kind="exit"), "every endpoint is closed at context exit", f"{len(x['open_at_end'])} still open")
         if x["tasks_at_end"]:
             ctx.violation(f"tasks-alive:exit:{proc}", dict(inp, kind="exit"), "every task terminates at context exit", x["tasks_at_end"][:5])
+        # the same exit with a client whose event handler really suspends (0.3 s in the *_FINISHED / teardown handlers)
+        xs = explore(inject_at=pt, kind="exit", slow=True)
+        ctx.count("evaluations")
+        if xs.get("t_inject") is not None:
+            ctx.hist("exit_with_suspending_handler", proc)
+            if xs.get("tasks_at_exit_return"):
+                ctx.violation(f"tasks-alive-at-exit-return:{proc}", dict(inp, kind="exit-slow-handler"),
+                              "no library task is alive when the context exit returns", xs["tasks_at_exit_return"][:5])
+            if xs.get("handler_activity_after_exit"):
+                ctx.violation(f"late-effect:exit:{proc}", dict(inp, kind="exit-slow-handler"),
+                              "no client event handler runs after the context exit has returned", xs["handler_activity_after_exit"][:4])
+            if xs["open_at_end"]:
+                ctx.violation(f"endpoint-open:exit:{proc}", dict(inp, kind="exit-slow-handler"), "every endpoint is closed at context exit", f"{len(xs['open_at_end'])} still open")
+            if xs["tasks_at_end"]:
+                ctx.violation(f"tasks-alive:exit:{proc}", dict(inp, kind="exit-slow-handler"), "every task terminates at context exit", xs["tasks_at_end"][:5])
     # ------------- resets in error states: the manager's own reset from inside the ping-loop task / a user reset, client handler yielding or not
     for sc in ERROR_SCENARIOS:
         for origin in ("self", "user"):
@@ -393,6 +431,10 @@ def replay(inp):
     if pt is None:
         c = explore(cycles=inp.get("cycles", 4), horizon=8.0).get("cycle_counts", [])
         return bool(c and c[-1][0] - c[0][0] >= len(c) - 1), c
+    if inp.get("kind") == "exit-slow-handler":
+        x = explore(inject_at=pt, kind="exit", slow=True)
+        return bool(x.get("tasks_at_exit_return") or x.get("handler_activity_after_exit") or x["open_at_end"] or x["tasks_at_end"]), \
+            {k: x.get(k) for k in ("tasks_at_exit_return", "handler_activity_after_exit", "open_at_end", "tasks_at_end")}
     if inp.get("kind") == "exit":
         x = explore(inject_at=pt, kind="exit")
         return bool(x["open_at_end"] or x["tasks_at_end"]), {"open_at_end": x["open_at_end"], "tasks": x["tasks_at_end"]}
